@@ -35,6 +35,18 @@ func main() {
 		func() { libvore.Compile(srcGroupsA) },
 		func() { libvore.Compile(srcGroupsB) },
 		func() { libvore.Compile(srcPlain) },
+		func() { libvore.Compile("set f to transform set v to 1 set w to 'q' return v * 2 end\nreplace all 'a' with f") },
+		func() { libvore.Compile("set g to transform set v to 'x' return head v end\nset p to pattern 'a' begin set k to matchLength return k == 1 end\nreplace all p with g") },
+		func() {
+			if _, err := libvore.Compile("find all 'abc"); err != nil {
+				_ = err.Error()
+			}
+		},
+		func() {
+			if _, err := libvore.Compile("find all 'a' \"xyz"); err != nil {
+				_ = err.Error()
+			}
+		},
 		func() { libvore.Compile(srcShared) },
 		func() { shared.Run("abab") },
 		func() { shared.Run("a1a ab1") },
